@@ -338,6 +338,9 @@ class VGen:
         # product with an interval in `s`; 25 %: the first factor depends on s (Monte-Carlo estimate in the code)
         b = Gen(rng, params=self.params, p_dep=0.3).prim1("s")
         if rng.random() < 0.25:
+            # dependent first factor: its parameters are generated for values in [0, 1], so `s` ranges in [0, 1]
+            lo = Fr(rng.randint(0, 8), 16)
+            b = Node("interval", "s", [PF([c(lo)]), PF([c(lo + Fr(rng.randint(2, 8), 16))])])
             a = Gen(rng, params=self.params + ["s"], p_dep=0.9).prim(var)
         else:
             a = self.known(min(depth, 2), var)
@@ -561,6 +564,11 @@ def check_density(case, node, dom, pr, rep, extra):
         rep.count("density:prod:random")
         if any(x_ in vfree(node.kids[0]) for x_ in vvars(node.kids[1])):
             return
+        if err == "timeout" or any(kk == "inter" or (kk in ("union", "cut")) for kk in kinds(node)) and err:
+            # the first factor is sampled with n = 1 per row through the rejection loops of the Boolean nodes (which
+            # need not terminate on an empty combination): termination and those loops are C01/C02
+            rep.count("density:prod:boolean-factor-raised-or-timeout(C01)")
+            return
         if err and math.floor(x + 1e-6) == 0:
             rep.count("density:prod:asks-for-0-points(raises; n = 0 is C02's business)")
             return
@@ -579,6 +587,20 @@ def check_boolean_density(case, node, dom, pr, rep, inp, env, d, sample):
     a, b = top.kids
     ma, mb = measure(a, env), measure(b, env)
     if ma is None or mb is None:
+        return
+    def plain(n):
+        """primitive, possibly moved, possibly with a user volume directly on it: its sampler returns ceil(d*volume()) points"""
+        while n.kind in ("translate", "rotate"):
+            n = n.kids[0]
+        if n.kind == "uservol":
+            n = n.kids[0]
+            while n.kind in ("translate", "rotate"):
+                n = n.kids[0]
+        return n.kind in PRIMS
+    if not (plain(a) and plain(b)):
+        # nested combinations: the operands' own counts are not ceil(d*measure) (rejection, user volumes that
+        # composite samplers do not consult); their counts are checked where they are the top node
+        rep.count("density:nested-boolean(count not checked)")
         return
     for how in ("random", "grid"):
         if how == "grid" and ("prod" in kinds(top)):
